@@ -1916,7 +1916,7 @@ class Interp:
             ops = [cond.get("lhs"), cond.get("rhs")] if cond.get("k") == "binop" else cond.get("args", [])
             if inc is not None and len(ops) == 2:
                 endc = skip_copies(ops[1])
-                if isinstance(endc, dict) and endc.get("k") == "call" and (endc.get("callee") or "").split("::")[-1] in ("end", "cend", "constEnd"):
+                if isinstance(endc, dict) and endc.get("k") == "call" and (endc.get("callee") or "").split("::")[-1] in ("end", "cend", "constEnd", "rend", "crend"):
                     cont = self.lvalue_path(endc.get("obj"))
                     itp = self.lvalue_path(ops[0])
                     incs = inc.get("e") if inc.get("k") == "unop" else (inc.get("args") or [None])[0]
